@@ -25,7 +25,11 @@ CONSTANTS MaxOps,       \* history length
           DurHalves,    \* segment durations, in halves
           CropQuarters, \* crop points: a natural n stands for (n - 1)/4
           NV,           \* number of control-velocity tuples in the piece library
-          StartVals     \* start values of pieces (integers)
+          StartVals,    \* start values of pieces (integers)
+          MakeLocalMode \* "off": make_local() is not part of the alphabet (all runs that decide C12);
+                        \* "coded": it is, as coded (only g0 is reset).  make_local is outside the listed properties;
+                        \* the "coded" run documents that it does NOT refine y(t) = x(0)^-1 x(t) for a multi-segment
+                        \* spline whose start is not the identity (TLC counterexample, reported as an observation)
 
 ---------------------------------------------------------------------------
 \* finite piece library and grids (small integers / dyadic fractions keep everything exact)
@@ -68,7 +72,10 @@ DoCrop == \E ta \in CropPoints, tb \in CropPoints, loc \in BOOLEAN :
                IN impl' = (IF r.ok THEN r.s ELSE impl) /\ nan' = ~r.ok
             /\ abs' = ACrop(abs, ta, tb, loc)
             /\ hist' = Append(hist, [op |-> "crop", ta |-> ta, tb |-> tb, loc |-> loc])
-Next == nops < MaxOps /\ ~nan /\ nops' = nops + 1 /\ (DoCatL \/ DoCatG \/ DoCrop)
+DoMakeLocal == /\ MakeLocalMode = "coded"
+               /\ impl' = IMakeLocal(impl) /\ abs' = ALocal(abs) /\ nan' = nan
+               /\ hist' = Append(hist, [op |-> "mklocal"])
+Next == nops < MaxOps /\ ~nan /\ nops' = nops + 1 /\ (DoCatL \/ DoCatG \/ DoCrop \/ DoMakeLocal)
 Spec == Init /\ [][Next]_vars
 
 ---------------------------------------------------------------------------
@@ -92,7 +99,8 @@ RepInv == ~nan =>
 \* (small rationals as <<numerator, denominator>>)
 RPair(x) == <<x[1] * (IF Len(x[2]) = 0 THEN 0 ELSE x[2][1]), x[3][1]>>
 HistOut == [i \in 1..Len(hist) |->
-             IF hist[i].op = "crop" THEN <<"crop", RPair(hist[i].ta), RPair(hist[i].tb), hist[i].loc>>
+             IF hist[i].op = "mklocal" THEN <<"mklocal">>
+             ELSE IF hist[i].op = "crop" THEN <<"crop", RPair(hist[i].ta), RPair(hist[i].tb), hist[i].loc>>
              ELSE <<hist[i].op, RPair(hist[i].T), [j \in 1..K |-> RPair(hist[i].V[j])], RPair(hist[i].ga)>>]
 Emit == (nops = MaxOps \/ nan) => PrintT(<<"HIST", HistOut>>)
 \* the history variable is for behaviour generation only
